@@ -158,6 +158,15 @@ func RunAll(fs []func()) {
 
 func Yield() { yield("yield", func() bool { return true }) }
 
+// Blocked reports whether goroutine id exists, has not finished and cannot run now.
+func Blocked(id int) bool {
+	if id < 0 || id >= len(gs) {
+		return false
+	}
+	g := gs[id]
+	return !g.done && !g.ready()
+}
+
 type Locker interface {
 	Lock()
 	Unlock()
@@ -499,6 +508,16 @@ func TestReplay(t *testing.T) {
 				if v != nil && v != want(k) {
 					errs = append(errs, "get-returned-foreign-value")
 				}
+			}
+		}
+	}
+	getBlocked := false
+	vsync.AfterStep = func() {
+		// Get never blocks: a goroutine whose call is a Get can always run
+		for g := range kinds {
+			if kinds[g] >= 2 && vsync.Blocked(g) && !getBlocked {
+				getBlocked = true
+				errs = append(errs, "get-blocks")
 			}
 		}
 	}
